@@ -53,7 +53,8 @@ Definition run_event (I : instance) (ev : val) : wld -> wld * val :=
          | (w', inr e) => (w', VL [VI (exn_code e)])
          end
   | 2 => fin (fun _ : unit => vlist vnat (subs w)) (reset o_reset I w)
-  | 3 => fin vnat (new_observer I (dec_okind (vnth ev 1)) w)
+  (* [3, kind] constructs and subscribes; [3, kind, 1] is the constructor's subscribe=False *)
+  | 3 => fin vnat (new_observer_gen I (dec_okind (vnth ev 1)) (negb (asB (vnth ev 2))) w)
   (* the script names observer objects by index; an index that names no object is the driver's IndexError *)
   | 4 => if (asN (vnth ev 1) <? length (objs w))%nat
          then fin (fun _ : unit => VL []) (unsubscribe (asN (vnth ev 1)) w)
